@@ -108,7 +108,9 @@ package blockwise
 // block size = bytes held): duplicated, stale, early or foreign blocks change nothing and are never
 // delivered. When the last block (M = 0) has been appended the assembled message is delivered exactly
 // once, after its cache entry has been removed; while more blocks are outstanding nothing is delivered
-// and the answer asks for the following block with the negotiated size min(SZX, maxSZX). Any failure
+// and the answer asks for the following block with the negotiated size min(SZX, maxSZX). The last block
+// of an UPLOAD for which nothing is being assembled is delivered only if it is block 0 (the whole body in
+// one block); otherwise it is refused (defect D16 - repaired). Any failure
 // after the assembly entry was obtained forgets the transfer (the entry is deleted) and the entry's
 // lock is given back on every path.
 //
@@ -149,6 +151,7 @@ package blockwise
 //@   ensures [appends-only-at-end] called(copyToPayloadFromOffset) ==> callArg(copyToPayloadFromOffset, 0, 2) == callRes(getPayloadFromCachedReceivedMessage, 0, 1) && callArg(copyToPayloadFromOffset, 0, 2) == callRes(DecodeBlockOption, 0, 1) * callRes(Size, 0, 0) && callArg(copyToPayloadFromOffset, 0, 0) == r && callArg(copyToPayloadFromOffset, 0, 1) == callRes(getPayloadFromCachedReceivedMessage, 0, 0)
 //@   ensures [other-blocks-change-nothing] called(getPayloadFromCachedReceivedMessage) && callRes(getPayloadFromCachedReceivedMessage, 0, 2) == nil && callRes(DecodeBlockOption, 0, 1) * callRes(Size, 0, 0) != callRes(getPayloadFromCachedReceivedMessage, 0, 1) ==> notCalled(copyToPayloadFromOffset) && notCalled(next)
 //@   ensures [complete-delivered-once] called(copyToPayloadFromOffset) && callRes(copyToPayloadFromOffset, 0, 1) == nil && !callRes(DecodeBlockOption, 0, 2) && err == nil ==> callCount(next) == 1 && callArg(next, 0, 1) == callRes(getCachedReceivedMessage, 0, 0) && called(Delete) && callSeq(Delete, 0) < callSeq(next, 0) && notCalled(SetMessage)
+//@   ensures [lone-final-block-of-upload-refused] called(DecodeBlockOption) && callRes(DecodeBlockOption, 0, 3) == nil && blockType == 27 && !callRes(DecodeBlockOption, 0, 2) && callRes(DecodeBlockOption, 0, 1) != 0 && notCalled(getCachedReceivedMessage) ==> err != nil && notCalled(next)
 //@   ensures [incomplete-not-delivered] called(getCachedReceivedMessage) && callRes(DecodeBlockOption, 0, 2) ==> notCalled(next)
 //@   ensures [asks-for-next-block] called(getCachedReceivedMessage) && callRes(DecodeBlockOption, 0, 2) && err == nil ==> callCount(SetMessage) == 1 && callCount(EncodeBlockOption) == 1 && callArg(EncodeBlockOption, 0, 0) == min(callRes(DecodeBlockOption, 0, 0), maxSzx) && callArg(EncodeBlockOption, 0, 2)
 //@   ensures [failure-forgets-transfer] err != nil && called(getCachedReceivedMessage) && callRes(getCachedReceivedMessage, 0, 2) == nil ==> called(Delete)
